@@ -83,6 +83,10 @@ type escaper struct {
 	actionNodeEdits   map[*parse.ActionNode][]string
 	templateNodeEdits map[*parse.TemplateNode]string
 	textNodeEdits     map[*parse.TextNode][]byte
+	// pristine maps template names to a copy of their parse tree taken before commit
+	// first rewrote it. Templates derived for another context are copied from it, so that
+	// an already rewritten tree is not sanitized a second time.
+	pristine map[string]*parse.Tree
 }
 
 // makeEscaper creates a blank escaper for the given set.
@@ -95,6 +99,7 @@ func makeEscaper(n *nameSpace) escaper {
 		map[*parse.ActionNode][]string{},
 		map[*parse.TemplateNode]string{},
 		map[*parse.TextNode][]byte{},
+		map[string]*parse.Tree{},
 	}
 }
 
@@ -427,6 +432,7 @@ func (e *escaper) escapeList(c context, n *parse.ListNode) context {
 // which is the same as whether e was updated.
 func (e *escaper) escapeListConditionally(c context, n *parse.ListNode, filter func(*escaper, context) bool) (context, bool) {
 	e1 := makeEscaper(e.ns)
+	e1.pristine = e.pristine
 	// Make type inferences available to f.
 	for k, v := range e.output {
 		e1.output[k] = v
@@ -518,7 +524,11 @@ func (e *escaper) escapeTree(c context, node parse.Node, name string, line int) 
 		dt := e.template(dname)
 		if dt == nil {
 			dt = template.New(dname)
-			dt.Tree = t.Tree.Copy()
+			src := t.Tree
+			if p := e.pristine[name]; p != nil {
+				src = p
+			}
+			dt.Tree = src.Copy()
 			dt.Tree.Name = dname
 			e.derived[dname] = dt
 		}
@@ -770,6 +780,13 @@ func (e *escaper) editTextNode(n *parse.TextNode, text []byte) {
 func (e *escaper) commit() {
 	for name := range e.output {
 		e.template(name).Funcs(funcs)
+	}
+	for name := range e.output {
+		if _, ok := e.pristine[name]; !ok {
+			if t := e.template(name); t != nil && t.Tree != nil {
+				e.pristine[name] = t.Tree.Copy()
+			}
+		}
 	}
 	// Any template from the name space associated with this escaper can be used
 	// to add derived templates to the underlying text/template name space.
